@@ -29,6 +29,7 @@ def run(ctx):
     b = exactness(ctx, g)
     vmins(ctx, g, b)
     bookkeeping(ctx, g)
+    root_state(ctx, g)
     min_hyperbolic(ctx, g)
     good_list(ctx, g)
     ctx.clauses.append("the generator's private orientation / orbit routines look at every operation 0..=dim() (T4)")
@@ -364,6 +365,48 @@ def min_hyperbolic(ctx, g):
                     okf = True
         ctx.ob("T4-minimal-hyperbolicity", b.name, "false<-c < 0", "ok" if okf else "violation",
                "`false` is returned when a lowered curvature is still negative" if okf else "no `return false` under c < 0: non-minimal hyperbolic assignments are accepted")
+
+
+def root_state(ctx, g):
+    """root(): the search starts from the minimal assignment (vs = orbit_vmins, curv = base_curvature) and is marked finished
+    (next = orbit_count()) exactly when the base curvature is NEGATIVE; a flat minimal assignment (curvature 0) still has hyperbolic
+    descendants (raise one branching number), so `<= 0` loses them.  The same predicate base_curvature < 0 gates children() and extract()."""
+    ctx.clauses.append("root = (orbit_vmins, base_curvature, next = orbit_count() iff base_curvature < 0 else 0), same predicate as in children()/extract() (T4)")
+    b = ctx.body(BT + "root")
+    ctx.scan([b])
+    me = ("param", 1, b.debug.get(1, ""))
+    base = ("field", me, "base_curvature")
+    agg = None
+    for bi, si, s in b.assigns():
+        rv = s["rv"]
+        if rv["k"] == "aggregate" and rv.get("agg") == "adt" and "next" in rv.get("fields", []):
+            agg = {f: norm(b.origin(o), g) for f, o in zip(rv["fields"], rv["ops"])}
+    if agg is None:
+        raise AnchorMissing("DSymBackTracking::root: state aggregate")
+    okvs = contains(agg["vs"], lambda y: y == ("field", me, "orbit_vmins"))
+    okcv = strip(agg["curv"]) == base
+    ctx.ob("T4-root-state", b.name, "vs, curv", "ok" if okvs and okcv else "violation",
+           "the root is the minimal assignment with the base curvature" if okvs and okcv else "the root state is not (orbit_vmins.clone(), base_curvature): vs = %s, curv = %s" % (show(agg["vs"], 1)[:40], show(agg["curv"], 1)[:40]))
+    nx = agg["next"]
+    bad = None
+    if nx[0] == "local":
+        table = {}
+        for dbb, d in b.all_defs_origins(nx[1]):
+            d = norm(d, g)
+            fa = [atom_norm(a, g) for a in b.facts_at(dbb)]
+            for cv in (-5, -1, 0, 1, 7):
+                vals = [eval_atom_env(a, {base: cv}) for a in fa if any(isinstance(z, tuple) and contains(z, lambda y: y == base) for z in a[1:])]
+                vals = [v for v in vals if v is not None]
+                if vals and all(vals):
+                    table[cv] = "finished" if is_call(d, "orbit_count") else ("open" if d == ("int", 0) else show(d, 1)[:30])
+        want = {-5: "finished", -1: "finished", 0: "open", 1: "open", 7: "open"}
+        if table != want:
+            bad = "for base curvature %s the root is %s; expected finished exactly for negative values (a flat minimal assignment still has hyperbolic descendants)" % (
+                sorted(table), [table[k] for k in sorted(table)])
+    else:
+        bad = "next is not chosen by the sign of the base curvature: " + show(nx, 1)[:50]
+    ctx.ob("T4-root-state", b.name, "next = orbit_count() iff base_curvature < 0", "ok" if not bad else "violation",
+           "the root is finished exactly for negative base curvature" if not bad else bad)
 
 
 def vmins(ctx, g, B):
